@@ -149,3 +149,23 @@ static inline v16f32 llvm_x86_avx512_mask_scalef_ps_512(v16f32 a, v16f32 b, v16f
 static inline v8f64 llvm_x86_avx512_mask_scalef_pd_512(v8f64 a, v8f64 b, v8f64 src, u8 k, u32 rc) {
   v8f64 r; for (int i = 0; i < 8; ++i) r.e[i] = ((k >> i) & 1) ? nondet_f64() : src.e[i]; return r; }
 #endif
+/* AVX-512 truncating conversions; NaN / out of range give the integer indefinite value (all ones for unsigned, MIN for signed) */
+#define LL_CVTTU32(x) (((x) == (x) && (x) > -1.0 && (x) < 4294967296.0) ? (u32)(x) : (u32)0xffffffffu)
+#define LL_CVTT64(x) (((x) == (x) && (x) > -9223373136366403584.0 && (x) < 9223372036854775808.0) ? (u64)(s64)(x) : (u64)0x8000000000000000ull)
+#define LL_CVTTU64(x) (((x) == (x) && (x) > -1.0 && (x) < 18446744073709551616.0) ? (u64)(x) : (u64)0xffffffffffffffffull)
+#ifdef NEED_llvm_x86_avx512_mask_cvttps2udq_512
+static inline v16u32 llvm_x86_avx512_mask_cvttps2udq_512(v16f32 a, v16u32 src, u16 k, u32 rc) {
+  v16u32 r; for (int i = 0; i < 16; ++i) r.e[i] = ((k >> i) & 1) ? LL_CVTTU32(a.e[i]) : src.e[i]; return r; }
+#endif
+#ifdef NEED_llvm_x86_avx512_mask_cvttpd2qq_512
+static inline v8u64 llvm_x86_avx512_mask_cvttpd2qq_512(v8f64 a, v8u64 src, u8 k, u32 rc) {
+  v8u64 r; for (int i = 0; i < 8; ++i) r.e[i] = ((k >> i) & 1) ? LL_CVTT64(a.e[i]) : src.e[i]; return r; }
+#endif
+#ifdef NEED_llvm_x86_avx512_mask_cvttpd2uqq_512
+static inline v8u64 llvm_x86_avx512_mask_cvttpd2uqq_512(v8f64 a, v8u64 src, u8 k, u32 rc) {
+  v8u64 r; for (int i = 0; i < 8; ++i) r.e[i] = ((k >> i) & 1) ? LL_CVTTU64(a.e[i]) : src.e[i]; return r; }
+#endif
+#ifdef NEED_llvm_x86_avx512_mask_cvtpd2qq_512
+static inline v8u64 llvm_x86_avx512_mask_cvtpd2qq_512(v8f64 a, v8u64 src, u8 k, u32 rc) {
+  v8u64 r; for (int i = 0; i < 8; ++i) r.e[i] = ((k >> i) & 1) ? LL_CVTT64(nearbyint(a.e[i])) : src.e[i]; return r; }
+#endif
